@@ -4,7 +4,7 @@ use super::hist::*;
 use super::monitors;
 use crate::explore::Chooser;
 use crate::report::*;
-use crate::wgen::{W1, W2, W3, W3B, W4, W6};
+use crate::wgen::{W1, W2, W3, W3B, W4, W6, W7};
 use crate::world::Cfg;
 use serde_json::{Value, json};
 use std::collections::BTreeMap;
@@ -69,7 +69,7 @@ pub fn scenarios(prop: &str, tier: Tier) -> Vec<HScn> {
     for h in v.iter_mut() {
         match prop {
             "C02" => h.scn.want_dumps = crate::world::DUMP_ON_ERROR,
-            "C03" => h.scn.want_dumps = crate::world::DUMP_ON_COMPLETED,
+            "C03" => h.scn.want_dumps = crate::world::DUMP_NONE,
             "C05" => {
                 h.scn.want_dumps = crate::world::DUMP_NONE;
                 h.scn.full_views = true;
@@ -108,7 +108,7 @@ fn scenarios_of(prop: &str, tier: Tier) -> Vec<HScn> {
         }
         "C03" => {
             // (workflow, keep_processes, deviation bound in the quick tier)
-            let set: [(&str, bool, usize); 10] = [
+            let set: [(&str, bool, usize); 11] = [
                 (W2, false, 1),
                 (W4, false, 1),
                 (W2N, false, 0),
@@ -119,10 +119,12 @@ fn scenarios_of(prop: &str, tier: Tier) -> Vec<HScn> {
                 (W2B, true, 0),
                 (W6, false, 0),
                 (W6, true, 0),
+                (W7, false, 0),
             ];
             for (y, keep, dq) in set {
                 let mut c = full_cfg(2);
-                c.terminal_targets = keep;
+                // cancel is aimed at acts that are already completed
+                c.terminal_targets = keep || y == W7;
                 v.push(hscn("par", y, keep, c, Some(if q { dq } else { 1 }), 48));
                 if !q {
                     let mut c = full_cfg(3);
